@@ -416,4 +416,79 @@ inline GenUri g_ref(Tape &t, const GenUri &base, int *kind = nullptr, int flavor
   return r;
 }
 
+
+// (source, base) pairs for reference creation (C10): both absolute, heavy overlap.
+// klass: 0 identical, 1 S path proper prefix of B's, 2 B prefix of S, 3 differ in last segment, 4 other port/userinfo,
+//        5 query on one side only, 6 rooted vs rootless without authority, 7 different scheme, 8 unrelated path, 9 non-absolute S or B
+inline std::string join_segs(const std::vector<std::string> &v, bool rooted) {
+  std::string p = rooted ? "/" : "";
+  for (size_t i = 0; i < v.size(); i++) { if (i) p += '/'; p += v[i]; }
+  return p;
+}
+inline void g_source_base(Tape &t, GenUri *S, GenUri *B, int *klass, int flavor = SEG_ANY) {
+  static const std::vector<std::string> plain = {"a", "b", "c", "x", "d:", "a:b", "", "e.f", "%41"};
+  auto seg = [&]() -> std::string { return t.chance(17, 20) ? t.pick(plain) : g_segment(t, flavor); };
+  GenUri b;
+  b.hasScheme = true; b.scheme = t.pick(pool_schemes());
+  b.hasAuth = t.chance(7, 10);
+  if (b.hasAuth) b.auth = g_pool_auth(t);
+  int nb = t.range(0, 4);
+  std::vector<std::string> bs;
+  for (int i = 0; i < nb; i++) bs.push_back(seg());
+  bool brooted = b.hasAuth ? true : t.chance(3, 4);
+  auto fixfirst = [&](std::vector<std::string> &v, bool rooted, bool hasAuth) {
+    if (v.empty()) return;
+    if (!hasAuth && v[0].empty()) v[0] = "r";  // "//" or empty rootless first segment would change the kind of path
+  };
+  fixfirst(bs, brooted, b.hasAuth);
+  GenUri s = b;
+  std::vector<std::string> ss = bs;
+  bool srooted = brooted;
+  int k = t.weighted({8, 12, 14, 16, 10, 8, 6, 8, 12, 6});
+  switch (k) {
+    case 0: break;
+    case 1: { int cut = ss.empty() ? 0 : t.range(0, (int)ss.size() - 1); ss.resize(cut); break; }
+    case 2: { int add = t.range(1, 3); for (int i = 0; i < add; i++) ss.push_back(seg()); break; }
+    case 3: if (ss.empty()) ss.push_back(seg()); else ss.back() = seg(); if (t.chance(1, 3)) ss.push_back(seg()); break;
+    case 4:
+      if (!s.hasAuth) { s.hasAuth = true; s.auth = g_pool_auth(t); srooted = true; }
+      else switch (t.below(4)) {
+        case 0: s.auth.hasPort = !s.auth.hasPort; s.auth.port = "82"; break;
+        case 1: s.auth.hasUser = !s.auth.hasUser; s.auth.user = "v"; break;
+        case 2: s.auth = g_pool_auth(t); break;
+        default: s.hasAuth = false; srooted = t.coin(); break;
+      }
+      break;
+    case 5: break;
+    case 6: if (!s.hasAuth && !b.hasAuth) srooted = !brooted; else { s.hasAuth = false; srooted = t.coin(); } break;
+    case 7: s.scheme = b.scheme == "s" ? "t" : (t.coin() ? "s" : "S"); break;
+    case 8: { ss.clear(); int n = t.range(0, 4); for (int i = 0; i < n; i++) ss.push_back(seg()); break; }
+    default: break;
+  }
+  // dot segments inside S or B in 15% of pairs
+  if (t.chance(3, 20)) { std::vector<std::string> &v = t.coin() ? ss : bs; v.insert(v.begin() + t.below((uint32_t)v.size() + 1), t.coin() ? ".." : "."); }
+  fixfirst(ss, srooted, s.hasAuth);
+  fixfirst(bs, brooted, b.hasAuth);
+  if (s.hasAuth) srooted = true;
+  if (b.hasAuth) brooted = true;
+  b.path = (bs.empty() && b.hasAuth && t.coin()) ? std::string() : (bs.empty() && !brooted ? std::string() : join_segs(bs, brooted));
+  s.path = (ss.empty() && s.hasAuth && t.coin()) ? std::string() : (ss.empty() && !srooted ? std::string() : join_segs(ss, srooted));
+  s.hasQuery = t.chance(1, 4); if (s.hasQuery) s.query = t.coin() ? "q" : "";
+  b.hasQuery = t.chance(1, 4); if (b.hasQuery) b.query = t.coin() ? "q" : "p";
+  if (k == 5) { if (t.coin()) { s.hasQuery = true; s.query = "q"; b.hasQuery = false; } else { b.hasQuery = true; b.query = "q"; s.hasQuery = false; } }
+  s.hasFrag = t.chance(1, 5); if (s.hasFrag) s.frag = "f";
+  b.hasFrag = t.chance(1, 8); if (b.hasFrag) b.frag = "bf";
+  if (k == 9) { if (t.coin()) s.hasScheme = false; if (t.coin()) b.hasScheme = false; if (s.hasScheme && b.hasScheme) b.hasScheme = false; }
+  // keep the texts valid: scheme-less + authority-less rootless first segment must not contain ':'
+  auto fixnoscheme = [&](GenUri &u) {
+    if (!u.hasScheme && !u.hasAuth && !u.path.empty() && u.path[0] != '/') {
+      size_t e = u.path.find('/');
+      std::string first = u.path.substr(0, e);
+      if (first.find(':') != std::string::npos) u.path = "./" + u.path;
+    }
+  };
+  fixnoscheme(s); fixnoscheme(b);
+  *S = s; *B = b; *klass = k;
+}
+
 }  // namespace vf
